@@ -545,3 +545,11 @@ def f1(ctx):
                           "PropertyTimeRangeMatcher.match answers `%s` without comparing the value with the range: DATE values (all-day "
                           "DTSTART, DUE;VALUE=DATE) are not datetime instances and never match" % (src(v) if v is not None else "None")))
     return obs
+
+
+@rule("C11", "I3", floor=1, kind="S",
+      desc="is-not-defined and presence filters see the same properties on both paths: the index records every property "
+           "that exists, whatever its value (same obligations as C10/X13)")
+def i3(ctx):
+    from .c10 import index_presence_obligations
+    return index_presence_obligations(ctx)
